@@ -152,8 +152,27 @@ func H04_BundleWindow() {
 	verif.InputLen(len(in))
 	verif.Observe("in", in)
 	_, _ = ParseBundle(bytes.NewReader(in))
-	// truncation at every offset
-	cut := verif.Size("cut", 0, len(in))
-	_, _ = ParseBundle(bytes.NewReader(in[:cut]))
+	verif.Reach("end")
+}
+
+// H04_BundleTruncate: every truncation of the template encodings (and of the administrative-record template).
+func H04_BundleTruncate() {
+	registerRoutingBlocks()
+	var enc []byte
+	switch verif.Choose("tmpl", 3) {
+	case 0:
+		enc = serialised(tmplBundle(0))
+	case 1:
+		enc = serialised(tmplBundle(1))
+	default:
+		enc = adminTemplate()
+	}
+	cut := verif.Size("cut", 0, len(enc))
+	verif.InputLen(cut)
+	b, err := ParseBundle(bytes.NewReader(enc[:cut]))
+	verif.Assert((err == nil) == (cut == len(enc)), "only the complete encoding is accepted")
+	if err == nil && b.IsAdministrativeRecord() {
+		_, _ = b.AdministrativeRecord()
+	}
 	verif.Reach("end")
 }
